@@ -15,7 +15,8 @@ from ..services import Harness, sends
 from .c17 import fresh16, install_subassociation, ext_calls
 
 
-def run(ctx):
+def run(ctx, only_get=False):
+    """only_get: just the C-GET user exploration (C17 re-generates it: the C-STORE responses of the C-GET user)"""
     it = ctx.build(by_contract=['dsutils.decode', 'dsutils.encode', 'dsutils.encode_element'])
     sc = it.modules['pynetdicom2.sopclass']
     dm = it.modules['pynetdicom2.dimsemessages']
@@ -89,10 +90,11 @@ def run(ctx):
     def is_final(it2, e):
         v = it2.getattr(e[2], 'status')
         return isinstance(v, int) and v == 0
-    ctx.add_exploration('sopclass.qr_move_scp[nop>0]', lambda p: move(p, False, 'sopclass.qr_move_scp[nop>0]'), res,
-                        target='sopclass.qr_move_scp')
-    ctx.add_exploration('sopclass.qr_move_scp[nop=0]', lambda p: move(p, True, 'sopclass.qr_move_scp[nop=0]'), res,
-                        target='sopclass.qr_move_scp')
+    if not only_get:
+        ctx.add_exploration('sopclass.qr_move_scp[nop>0]', lambda p: move(p, False, 'sopclass.qr_move_scp[nop>0]'), res,
+                            target='sopclass.qr_move_scp')
+        ctx.add_exploration('sopclass.qr_move_scp[nop=0]', lambda p: move(p, True, 'sopclass.qr_move_scp[nop=0]'), res,
+                            target='sopclass.qr_move_scp')
 
     # ------------------------------------------------------------------ C-GET user
     def get(p, label):
@@ -177,6 +179,8 @@ def run(ctx):
 
     from ..services import install_native_replayer
     install_native_replayer(ctx)
+    if only_get:
+        return
     ctx.assumptions += [
         'the application supplies a finite sequence of data sets and a count; the destination association and its '
         'storage service are oracles returning an arbitrary status',
